@@ -44,6 +44,7 @@ enum Op {
     ToContiguous,
     ClipDim(usize, usize, usize),
     Append(usize, usize, usize),
+    AppendP(usize, Vec<usize>, usize, usize, usize, usize),
 }
 
 #[derive(Clone, Copy, Debug, PartialEq)]
@@ -134,6 +135,7 @@ fn fmt_op(op: &Op) -> String {
         Op::ToContiguous => "O".into(),
         Op::ClipDim(d, s, e) => format!("D/{}/{}/{}", d, s, e),
         Op::Append(a, k, c) => format!("X/{}/{}/{}", a, k, c),
+        Op::AppendP(m, p, a, k, c, r) => format!("Y/{}/{}/{}/{}/{}/{}", m, fmt_list(p), a, k, c, r),
     }
 }
 fn parse_op(s: &str) -> Op {
@@ -159,6 +161,7 @@ fn parse_op(s: &str) -> Op {
         "O" => Op::ToContiguous,
         "D" => Op::ClipDim(n(1), n(2), n(3)),
         "X" => Op::Append(n(1), n(2), n(3)),
+        "Y" => Op::AppendP(n(1), parse_list(p[2]), n(3), n(4), n(5), n(6)),
         other => panic!("bad op {}", other),
     }
 }
@@ -203,6 +206,7 @@ fn coq_op(op: &Op) -> String {
         Op::ToContiguous => "OToContiguous".into(),
         Op::ClipDim(d, s, e) => format!("OClipDim {} {} {}", d, s, e),
         Op::Append(a, k, c) => format!("OAppend {} {} {}", a, k, c),
+        Op::AppendP(m, p, a, k, c, r) => format!("OAppendP {} {} {} {} {} {}", m, coq_list_n(p), a, k, c, r),
     }
 }
 
@@ -648,6 +652,59 @@ fn apply(v: &V, op: &Op, arena: &mut Arena) -> Applied {
                 }
             }
         }
+        Op::AppendP(mode, perm, axis, k, cap, rep) => {
+            // an owned tensor holding view[.., 0..k, ..], built in the memory order of axes
+            // `perm`, permuted IN PLACE to the view's axis order, then extended along `axis`
+            let t = guard(|| {
+                let first = v.slice_axis(*axis, 0..*k).permuted(perm.as_slice());
+                let pos = perm.iter().position(|a| a == axis).unwrap();
+                let n = v.size(*axis);
+                let dense_from_vec = *mode == 0 && pos == 0;
+                let cap2 = if dense_from_vec { (*cap).max(*k) } else { *cap };
+                let mut mem_shape: Vec<usize> = perm.iter().map(|a| v.size(*a)).collect();
+                mem_shape[pos] = cap2;
+                let mut t = if dense_from_vec {
+                    let mut data: Vec<i32> = Vec::with_capacity(mem_shape.iter().product());
+                    data.extend(first.iter().copied());
+                    let mut shape_k = mem_shape.clone();
+                    shape_k[0] = *k;
+                    Tensor::<i32>::from_data(&shape_k, data)
+                } else {
+                    let mut t = Tensor::<i32>::with_capacity(&mem_shape, pos);
+                    t.append(pos, &first).map_err(|e| expand_err(&e))?;
+                    t
+                };
+                let mut inv = vec![0usize; perm.len()];
+                for (i, a) in perm.iter().enumerate() {
+                    inv[*a] = i;
+                }
+                t.permute(inv.as_slice());
+                let other = v.slice_axis(*axis, *k..n);
+                match *rep {
+                    0 => t.append(*axis, &other),
+                    1 => t.append(*axis, &other.to_tensor()),
+                    _ => {
+                        let rshape: Vec<usize> = other.shape().iter().rev().copied().collect();
+                        let order: Vec<usize> = (0..other.ndim()).rev().collect();
+                        let mut z = Tensor::<i32>::zeros(&rshape);
+                        z.permuted_mut(&order).copy_from(&other);
+                        t.append(*axis, &z.permuted(&order))
+                    }
+                }
+                .map_err(|e| expand_err(&e))?;
+                Ok(t)
+            });
+            match t {
+                Err(e) => Err(e),
+                Ok(t) => {
+                    let tshape = t.shape().to_vec();
+                    let tstrides = t.strides().to_vec();
+                    let data = t.into_non_contiguous_data();
+                    let buf = arena.add(data);
+                    guard(|| TensorView::from_slice_with_strides(&tshape, buf, &tstrides).map_err(|_| ErrKind::Anomaly))
+                }
+            }
+        }
     };
     match r {
         Ok(x) => Applied::Ok(x),
@@ -771,7 +828,7 @@ fn exec_line(line: &str) -> String {
             if out.is_err() {
                 n_err += 1;
             }
-            if matches!(op, Op::SliceCopy(_) | Op::Reshape(_) | Op::ToContiguous | Op::ClipDim(..) | Op::Append(..)) {
+            if matches!(op, Op::SliceCopy(_) | Op::Reshape(_) | Op::ToContiguous | Op::ClipDim(..) | Op::Append(..) | Op::AppendP(..)) {
                 n_copy += 1;
             }
             if let Ok(o) = &out {
@@ -1033,7 +1090,7 @@ fn gen_op(rng: &mut SplitMix64, shape: &[usize], wild: bool) -> Op {
         if wild && rng.chance(1, 10) { rank + rng.below(2) as usize } else { rng.below(r.max(1)) as usize }
     };
     loop {
-        match rng.below(26) {
+        match rng.below(29) {
             0..=3 => return Op::Slice(gen_items(rng, shape, false, wild)),
             4 | 5 => return Op::SliceCopy(gen_items(rng, shape, true, wild)),
             6 => {
@@ -1171,6 +1228,43 @@ fn gen_op(rng: &mut SplitMix64, shape: &[usize], wild: bool) -> Op {
                 let e = s + rng.below((size - s) as u64 + 1) as usize;
                 let (s, e) = if wild && rng.chance(1, 8) { (s, size + 1) } else { (s, e) };
                 return Op::ClipDim(a, s, e);
+            }
+            26..=28 => {
+                // append to an owned tensor that was permuted in place
+                if rank == 0 && !wild {
+                    continue;
+                }
+                let a = axis(rng);
+                let size = shape.get(a).copied().unwrap_or(2);
+                let mut p: Vec<usize> = (0..rank).collect();
+                for d in (1..rank).rev() {
+                    let j = rng.below(d as u64 + 1) as usize;
+                    p.swap(d, j);
+                }
+                if rng.chance(3, 5) {
+                    // dense case: the append axis is outermost in memory
+                    if let Some(i) = p.iter().position(|x| *x == a) {
+                        p.swap(0, i);
+                    }
+                }
+                if wild && rng.chance(1, 12) {
+                    if rank > 1 { p[0] = p[1]; } else { p.push(1); }
+                }
+                // leave at least two entries to append where possible
+                let k = if wild && rng.chance(1, 10) {
+                    size + 1
+                } else if size >= 2 && rng.chance(3, 4) {
+                    rng.below(size as u64 - 1) as usize
+                } else {
+                    rng.below(size as u64 + 1) as usize
+                };
+                let cap = match rng.below(8) {
+                    0 => size.saturating_sub(1),
+                    1 => k,
+                    2 | 3 => size + 1 + rng.below(2) as usize,
+                    _ => size,
+                };
+                return Op::AppendP(rng.below(2) as usize, p, a, k, cap, rng.below(3) as usize);
             }
             _ => {
                 if rank == 0 && !wild {
